@@ -249,10 +249,14 @@ def run_error_rs(facts, rep):
                 continue
             for s in blk.stmts:
                 if s.kind == "assign" and s.rv.kind == "agg" and s.rv.agg.get("adt") == "error::VfsError":
-                    ctor_sites.append((b, s.line))
+                    # a struct-update literal that carries the `kind` of an existing error over is not a new classification
+                    tv = norm(get_tracer(facts, b).rvalue(s.rv, frozenset()))
+                    kd = dict(tv[3]).get("kind") if tv[0] == "agg" else None
+                    carried = kd is not None and kd[0] == "field" and kd[2] == "kind"
+                    ctor_sites.append((b, s.line, carried))
     allowed = "<error::VfsError as std::convert::From<error::VfsErrorKind>>::from"
-    for b, line in ctor_sites:
-        ok = b.id == allowed or (b.impl and b.impl.get("derived"))
+    for b, line, carried in ctor_sites:
+        ok = b.id == allowed or (b.impl and b.impl.get("derived")) or carried
         rep.ob("R12.3a", b.id, "VfsError literal", ok,
                "only From<VfsErrorKind> may build a VfsError (normalisation + placeholder path)" if ok else
                "VfsError constructed outside From<VfsErrorKind>: bypasses NotFound normalisation", line)
@@ -297,60 +301,67 @@ def run_error_rs(facts, rep):
         ok = ("From::from" in calls or "Into::into" in calls) and not any(s.kind == "assign" and s.rv.kind == "agg" and s.rv.agg.get("adt") == "error::VfsError"
                                                for blk in fio.blocks for s in blk.stmts)
         rep.ob("R12.3a", fio.id, "delegates to From<VfsErrorKind>", ok, "calls %s" % calls, fio.span)
-    # R12.3b field footprint
+    # R12.3b field footprint of the with_* helpers.  Two equivalent shapes are understood: "mutate self, return self" and
+    # "build a new VfsError by struct update (Self { own: value, ..self })"; both are reduced to a map
+    # field -> where its value in the returned error comes from.
+    def argconv(t, i):
+        for _ in range(6):
+            if t[0] == "arg" and t[1] == i:
+                return True
+            if t[0] == "call" and t[1] in ("Into::into", "From::from", "ToString::to_string", "ToOwned::to_owned", "Clone::clone",
+                                           "AsRef::as_ref", "String::from", "str::to_string", "str::to_owned") and t[2]:
+                t = norm(t[2][0])
+                continue
+            return False
+        return False
+
     for name, allowed_fields in (("with_path", {"path"}), ("with_context", {"context"}), ("with_cause", {"cause"})):
         b = facts.body("error::VfsError::%s" % name)
         if b is None:
             rep.fail("R12.3b", "error::VfsError::%s" % name, "present", "anchor missing")
             continue
+        trw = get_tracer(facts, b)
         written = set()
+        wbbs = []
+        vals = []
         for blk in b.blocks:
             if blk.cleanup:
                 continue
-            for s in blk.stmts:
-                if s.kind == "assign" and not s.lhs.is_local() and s.lhs.local in (1,):
-                    fs = s.lhs.fields()
+            for s_ in blk.stmts:
+                if s_.kind == "assign" and not s_.lhs.is_local() and s_.lhs.local in (1,):
+                    fs = s_.lhs.fields()
                     if fs:
                         written.add(fs[0])
-            t = blk.term
-            if t.kind == "drop" and not t.place.is_local() and t.place.local == 1:
-                pass
-        ok = written <= allowed_fields and bool(written)
-        rep.ob("R12.3b", b.id, "writes only its own field", ok, "fields written: %s" % sorted(written), b.span)
-        if name == "with_path":
-            # the stamp is unconditional and is the argument: every return passes the field write (no "keep the old
-            # path for some values" — the old path is the placeholder or a path of an underlying layer), and the
-            # written value is the argument up to conversions
-            trw = get_tracer(facts, b)
-            wbbs = [blk.idx for blk in b.blocks if not blk.cleanup and any(
-                s.kind == "assign" and not s.lhs.is_local() and s.lhs.local == 1 and s.lhs.fields()[:1] == ["path"] for s in blk.stmts)]
-            rets = trw.cfg.return_blocks()
+                        if fs[0] in allowed_fields:
+                            wbbs.append(blk.idx)
+                            vals.append(norm(trw.rvalue(s_.rv, frozenset())))
+        r = trw.local(0)
+        rn = norm(r)
+        rets = trw.cfg.return_blocks()
+        if rn[0] == "agg" and rn[1] == "error::VfsError" and not written:
+            # struct-update form: every other field must be carried over from self unchanged
+            d = dict(rn[3])
+            carried = all((f in allowed_fields) or (v[0] == "field" and v[2] == f and v[1][0] == "arg" and v[1][1] == 0) for f, v in d.items())
+            own = [d[f] for f in allowed_fields if f in d]
+            rep.ob("R12.3b", b.id, "writes only its own field", carried and bool(own),
+                   "struct update: %s replaced, the rest carried over from self" % sorted(allowed_fields) if carried else
+                   "a field other than %s is not carried over from self" % sorted(allowed_fields), b.span)
+            rep.ob("R12.3b", b.id, "returns the same error", carried, "rebuilt from self", b.span)
+            uncond = bool(own)   # one aggregate is the only return value: the stamp cannot be skipped
+            vals = own
+        else:
+            ok = written <= allowed_fields and bool(written)
+            rep.ob("R12.3b", b.id, "writes only its own field", ok, "fields written: %s" % sorted(written), b.span)
+            rep.ob("R12.3b", b.id, "returns the same error", r[0] == "arg" and r[1] == 0, fmt(r)[:60], b.span)
             uncond = bool(wbbs) and bool(rets) and all(any(w_ in trw.cfg.dominating_blocks(r_) for w_ in wbbs) for r_ in rets)
-            rep.ob("R12.3b", b.id, "path stamp is unconditional", uncond, "the field write dominates every return" if uncond else
+        if name == "with_path":
+            # the stamp is unconditional and is the argument: no "keep the old path for some values" — the old path is the
+            # placeholder or a path of an underlying layer
+            rep.ob("R12.3b", b.id, "path stamp is unconditional", uncond, "the stamp is on every return" if uncond else
                    "with_path can return without storing its argument: for those arguments (e.g. the root path \"\") the error keeps "
                    "the placeholder or the path an underlying layer stamped on it", b.span)
-            vals = []
-            for blk in b.blocks:
-                for s_ in blk.stmts:
-                    if s_.kind == "assign" and not s_.lhs.is_local() and s_.lhs.local == 1 and s_.lhs.fields()[:1] == ["path"]:
-                        vals.append(norm(trw.rvalue(s_.rv, frozenset())))
-
-            def is_argconv(t):
-                for _ in range(6):
-                    if t[0] == "arg" and t[1] == 1:
-                        return True
-                    if t[0] == "call" and t[1] in ("Into::into", "From::from", "ToString::to_string", "ToOwned::to_owned", "Clone::clone",
-                                                   "AsRef::as_ref", "String::from", "str::to_string", "str::to_owned") and t[2]:
-                        t = norm(t[2][0])
-                        continue
-                    return False
-                return False
-            okv = bool(vals) and all(is_argconv(v) for v in vals)
+            okv = bool(vals) and all(argconv(v, 1) for v in vals)
             rep.ob("R12.3b", b.id, "stored path is the argument itself", okv, "; ".join(fmt(v)[:40] for v in vals), b.span)
-        # returns self
-        tr = get_tracer(facts, b)
-        r = tr.local(0)
-        rep.ob("R12.3b", b.id, "returns the same error", r[0] == "arg" and r[1] == 0, fmt(r)[:60], b.span)
     # R12.3c provided optional methods build NotSupported
     for trait in ("filesystem::FileSystem", "async_vfs::filesystem::AsyncFileSystem"):
         n = 0
